@@ -1,6 +1,6 @@
 (* C04 — declared forwarding: forwards = embed o mask. *)
 From Sigtools.Model Require Import Base Bind Roles Algebra.
-From Sigtools.Proofs Require Import SmallModel Basics Deciders.
+From Sigtools.Proofs Require Import SmallModel Basics Deciders MaskLaws MaskExact.
 
 Theorem C04_def o i n names0 ha hk uva uvk :
   forwards o i n names0 ha hk uva uvk false =
@@ -31,3 +31,16 @@ Theorem C04_exec_sound_decider_complete r o i uva uvk n0 names0 extra :
             chain o i uva uvk n0 names0 c = true.
 Proof. exact (chain_sound_cex_complete r o i uva uvk n0 names0 extra). Qed.
 Print Assumptions C04_exec_sound_decider_complete.
+
+(* C04_bound, for ALL signatures and calls: the signature of a bound method is
+   mask(sig, 1): it accepts exactly the non-colliding calls the function accepts
+   with the instance as extra first positional argument *)
+Theorem C04_bound_method s :
+  valid_sig (params s) = true ->
+  match mask s 1 [] nohide0 with
+  | Ok r => forall c, noncolliding c (params r) [params s] = true ->
+                      accepts (params r) c = accepts (params s) (shift_call 1 [] c)
+  | Err e => e = ValueErr /\ forall c, accepts (params s) (shift_call 1 [] c) = false
+  end.
+Proof. intros H. exact (mask_positional_exact s 1 H (Nat.neq_succ_0 0)). Qed.
+Print Assumptions C04_bound_method.
